@@ -365,6 +365,28 @@ def r07e(ctx, rep, cr):
     rep.floor('R07e', 'loaders', n, 3)
 
 
+def r07f(ctx, rep, cr):
+    rep.rule('R07f', 'a loader refuses nothing a saver wrote: in everything reachable (inside tensor_store) from load_v3, '
+                     'SlabRouter::from_bytes and load_snapshot_compressed, a comparison of a payload / buffer length with a bound made of '
+                     'constants only (a size or ratio policy, not header validation or format arithmetic) has a counterpart on the same '
+                     'constant in the save path — otherwise save renames over the previous good snapshot a file that load then rejects, '
+                     'and the path holds neither the old nor the new store')
+    cg = ctx.callgraph(['tensor_store'])
+    starts = [n for n in (TS + 'snapshot::load_v3', SR + '::from_bytes', TS + 'TensorStore::load_snapshot_compressed') if n in cr.fns]
+    readers = [cg.fns[n] for n in cg.reach(starts) if n in cg.fns and n.startswith(TS) and not re.search(r'::(save|to_bytes|snapshot_bytes|write)\w*', n)]
+    writers = [g for n, g in cr.fns.items() if re.search(r'snapshot::save\w*|TensorStore::save_snapshot\w*|SlabRouter::to_bytes|snapshot::\w*compress\w*', A.parent_fn(n))
+               and not re.search(r'decompress', n)]
+    bad, n = lib.reader_only_policies(readers, writers)
+    for k, (g, line, op, cs) in enumerate(bad):
+        rep.analysed(g)
+        rep.violation('R07f', g, 'loader-only-limit', g.loc(line),
+                      'the loader rejects a payload by comparing its size with %s, and no save function applies that bound: a store that '
+                      'compresses / serialises beyond it is saved (replacing the previous snapshot) and can never be loaded again' % ', '.join(cs))
+    if not bad:
+        rep.holds('R07f', starts[0] if starts else 'loaders', 'size policies', '%d loader-side function(s), %d policy comparison(s), all matched by the savers' % (len(readers), n))
+    rep.floor('R07f', 'functions reachable from the loaders', len(readers), 5)
+
+
 def run(ctx, rep):
     cr = ctx.crate('tensor_store')
     r07a(ctx, rep, cr)
@@ -372,3 +394,4 @@ def run(ctx, rep):
     r07c(ctx, rep, cr)
     r07d(ctx, rep, cr)
     r07e(ctx, rep, cr)
+    r07f(ctx, rep, cr)
